@@ -480,6 +480,10 @@ def check(ctx):
 
 
 MUTANTS = [
+    Mutant("F22t-revert-trailer-line-consumed-before-the-limit-test", HTTP, '            receivedSize = self._receivedTrailerHeadersSize + eolIndex + 2\n            if receivedSize > self._maxTrailerHeadersSize:\n                raise _MalformedChunkedDataError("Trailer headers data is too long.")\n            self._trailerHeaders.append(self._buffer[0:eolIndex])\n            del self._buffer[0 : eolIndex + 2]\n            self._start = 0\n            self._receivedTrailerHeadersSize = receivedSize\n',
+           '            self._trailerHeaders.append(self._buffer[0:eolIndex])\n            del self._buffer[0 : eolIndex + 2]\n            self._start = 0\n            self._receivedTrailerHeadersSize += eolIndex + 2\n            if self._receivedTrailerHeadersSize > self._maxTrailerHeadersSize:\n                raise _MalformedChunkedDataError("Trailer headers data is too long.")\n', expect_rule="absorbing/no-consumption-before-reject"),
+    Mutant("F22t-revert-seen-by-the-bounded-layer", HTTP, '            receivedSize = self._receivedTrailerHeadersSize + eolIndex + 2\n            if receivedSize > self._maxTrailerHeadersSize:\n                raise _MalformedChunkedDataError("Trailer headers data is too long.")\n            self._trailerHeaders.append(self._buffer[0:eolIndex])\n            del self._buffer[0 : eolIndex + 2]\n            self._start = 0\n            self._receivedTrailerHeadersSize = receivedSize\n',
+           '            self._trailerHeaders.append(self._buffer[0:eolIndex])\n            del self._buffer[0 : eolIndex + 2]\n            self._start = 0\n            self._receivedTrailerHeadersSize += eolIndex + 2\n            if self._receivedTrailerHeadersSize > self._maxTrailerHeadersSize:\n                raise _MalformedChunkedDataError("Trailer headers data is too long.")\n', expect_rule="absorbing/rejected-stays-rejected"),
     Mutant("chunk-end-bytes-consumed-before-they-are-checked", HTTP, '        if not self._buffer.startswith(b"\\r\\n"):\n            raise _MalformedChunkedDataError("Chunk did not end with CRLF")\n\n        self.state = "CHUNK_LENGTH"\n        del self._buffer[0:2]\n        return True\n',
            '        ending = bytes(self._buffer[0:2])\n        del self._buffer[0:2]\n        if ending != b"\\r\\n":\n            raise _MalformedChunkedDataError("Chunk did not end with CRLF")\n\n        self.state = "CHUNK_LENGTH"\n        return True\n'),
     Mutant("extension-dropped-from-the-buffer-before-it-is-checked", HTTP, '        ext = self._buffer[endOfLengthIndex + 1 : eolIndex]\n        if ext and ext.translate(None, _chunkExtChars) != b"":\n            raise _MalformedChunkedDataError(\n                f"Invalid characters in chunk extensions: {ext!r}."\n            )\n',
